@@ -9,6 +9,7 @@ import Alpen.Model.Queue
 import Alpen.Model.Task
 import Alpen.Model.Retry
 import Alpen.Model.WorldOps
+import Alpen.Model.Import
 /-!
 Line-protocol driver: one operation per line on stdin, one canonical answer line on
 stdout.  Strings travel as comma-separated code points (`-` = empty string).
@@ -156,6 +157,19 @@ def pure1 (toks : List String) : Option String :=
   | ["valmd5", s] => do
       let s ← decStr s
       pure (match validateMd5 s with | none => "none" | some d => encStr d)
+  | ["imp", ur, ir, im, rg, dn, lk, det, reg, ae, fe, cp] => do
+      let d ← match det with
+        | "none" => some Detect.none | "ok" => some .ok | "invalidName" => some .invalidName | "notAncestor" => some .notAncestor | _ => none
+      let c ← if cp = "-" then some none else match cp.splitOn ":" with
+        | [h, w] => do pure (some (← Has.ofString h, ← Wants.ofString w))
+        | _ => none
+      let i : ImpIn := ⟨← decBool ur, ← decBool ir, ← decBool im, ← decBool rg, ← decBool dn, ← decBool lk, d, ← decBool reg, ← decBool ae, ← decBool fe, c⟩
+      let o := importStep i
+      let r := match o.result with
+        | .ignored => "ignored" | .invalid => "invalid" | .badName => "badName" | .lockedPending => "lockedPending"
+        | .noDetection => "noDetection" | .badAcq => "badAcq" | .duplicate => "duplicate" | .unregistered => "unregistered" | .success => "success"
+      let cs := match o.copy with | none => "-" | some (h, w) => s!"{h.toString}:{w.toString}"
+      pure s!"{r} completed={encBool o.requestCompleted} newAcq={encBool o.newAcq} newFile={encBool o.newFile} copy={cs} postAdd={encBool o.postAdd}"
   | ["retry", ac, tx, cl, o0, o1] => do
       let o0 ← decBool o0; let o1 ← decBool o1
       let (evs, r) := retryExecute (← decBool ac) (← decBool tx) (← decBool cl) (fun i => if i = 0 then o0 else o1)
